@@ -419,8 +419,32 @@ def r6_error_unwinding(ctx, rule="C05.R6"):
                    "when the built-in fails, the %s arm returns the error without popping the "
                    "callee context that PushStack created; after a handled error (RESUME NEXT) "
                    "the caller runs on the built-in's variables" % v)
+        # ... and it is the very operation the PopStack instruction would have performed (sibling
+        # agreement): a routine that only drops argument-collecting states removes nothing here,
+        # the state on top is the normal state PushStack made
+        def deep(region_):
+            out = set()
+            for _b, t in mir.region_calls(one.body, region_):
+                c = mir.callee_of(t)
+                out.add(c)
+                g = prog.fns.get(c)
+                if g is not None and g.file == one.file and g.kind != "const":
+                    out |= {mir.callee_of(t2) for _b2, t2 in g.body.calls()}
+            return out
+        if "PopStack" not in regions:
+            raise CheckError("interpret_one has no arm for Instruction::PopStack")
+        pops = {c for c in deep(regions["PopStack"]) if c in shrinking and prog.fns.get(c) is not None
+                and prog.fns[c].file != one.file}
+        if not pops:
+            raise CheckError("%s: the PopStack arm calls nothing that shrinks Context::states" % rule)
+        missing = pops - deep(err_blocks)
+        ctx.decide(not missing, rule, "%s:%s:error-path-pops-like-PopStack" % (rule, v), one.loc,
+                   "the error path performs %s, as PopStack does" % sorted(x.split("::")[-1] for x in pops),
+                   "when the built-in fails, the %s arm does not perform the context operation of the PopStack it "
+                   "skips (%s): the state PushStack made stays on the context stack and, after RESUME NEXT, the caller "
+                   "runs on the failed built-in's empty variables" % (v, sorted(x.split("::")[-1] for x in missing)))
     ctx.analysed_units(rule, shrinkers=sorted(x.split("::")[-1] for x in direct))
-    ctx.require(rule, 5)
+    ctx.require(rule, 7)
 
 
 def r7_transfer_committed_last(ctx, rule="C05.R7"):
